@@ -143,6 +143,10 @@ pub fn run_prog(i: usize, steps: &[J]) {
 /// The closure handed to submit_task for task `i`.
 pub fn make_body(i: usize, steps: Vec<J>, panics: bool, value: usize, who: fn() -> usize) -> impl FnOnce(Option<usize>) -> Option<usize> + 'static {
     move |_| {
+        // (no scheduling point may happen while the RECS guard is held)
+        if let Some(co) = open_coroutine_core::scheduler::SchedulableCoroutine::current() {
+            _ = co.put("vtask", i);
+        }
         {
             let mut r = recs();
             let t = &mut r[i];
@@ -170,6 +174,9 @@ pub fn make_body(i: usize, steps: Vec<J>, panics: bool, value: usize, who: fn() 
             let mut r = recs();
             r[i].end_ns = Some(now());
             r[i].finished = true;
+        }
+        if let Some(co) = open_coroutine_core::scheduler::SchedulableCoroutine::current() {
+            _ = co.put("vtask", usize::MAX);
         }
         if panics {
             probe("task.panic");
@@ -506,7 +513,8 @@ fn body_pool(plan: &J) {
         }
         let all_done = recs().iter().all(|t| t.submit_ok != Some(true) || t.finished || t.cancelled_any);
         let running_before_stop = pool.get_running_size();
-        if all_done && min == 0 && running_before_stop != 0 {
+        // (an early stop has not waited out the keep-alive time: nothing to demand yet)
+        if all_done && min == 0 && running_before_stop != 0 && !early_stop {
             fail(
                 "workers-not-released",
                 format!("all tasks finished or were cancelled more than keep-alive + 1 s ago and passes kept running, but the pool still reports {running_before_stop} running worker(s) (min size 0)"),
@@ -814,6 +822,31 @@ fn hooked_sleep_us(us: u64) {
     }
 }
 
+/// Root-cause probe for the signal-based cancel: SIGVTALRM is aimed at the thread that ran the task
+/// when the cancel was requested; whatever coroutine is current on that thread when the signal is
+/// handled gets cancelled. Counted when a coroutine ends Cancelled while it runs a task nobody asked
+/// to cancel.
+#[derive(Clone, Debug)]
+struct CancelSpy;
+
+impl open_coroutine_core::coroutine::listener::Listener<(), Option<usize>> for CancelSpy {
+    fn on_state_changed(
+        &self,
+        local: &open_coroutine_core::coroutine::local::CoroutineLocal,
+        _: open_coroutine_core::scheduler::SchedulableCoroutineState,
+        new: open_coroutine_core::scheduler::SchedulableCoroutineState,
+    ) {
+        if let open_coroutine_core::common::constants::CoroutineState::Cancelled = new {
+            if let Some(i) = local.get::<usize>("vtask").copied() {
+                let r = recs();
+                if i < r.len() && r[i].cancel_calls == 0 && !r[i].finished {
+                    sim::count("cause.rt.cancel-hit-other-task");
+                }
+            }
+        }
+    }
+}
+
 fn body_rt(plan: &J) {
     use std::sync::atomic::Ordering::SeqCst;
     recs().clear();
@@ -841,6 +874,7 @@ fn body_rt(plan: &J) {
     }
     let cfg = Config::new(loops, 64 * 1024, min, max, plan.gu("keep_alive_ns"), 0, 0, true);
     EventLoops::init(&cfg);
+    EventLoops::verif_add_listener(CancelSpy);
     let nusers = plan.ga("users").len();
     let users_done = std::sync::Arc::new(std::sync::atomic::AtomicUsize::new(0));
     let mut user_handles = Vec::new();
